@@ -905,8 +905,12 @@ class Builtins:
                 raise Unsupported("symbolic index into concrete list")
             n = to_term_int(list_len(obj))
             k = to_term_int(key)
-            if isinstance(key, int) and key < 0:
-                k = n + key
+            if isinstance(key, int):
+                if key < 0:
+                    k = n + key
+            else:
+                # a symbolic index may be negative: Python counts from the end (found by tools/crosscheck.py)
+                k = z3.If(k < 0, n + k, k)
             inb = z3.And(k >= 0, k < n)
             if not self.cx.branch(inb, "index-in-bounds"):
                 raise PyRaise(SExc("IndexError"))
